@@ -98,7 +98,8 @@ impl Ctx {
 
     /// start a new case: both sides reset their state
     pub fn case(&mut self) {
-        if self.samples.len() < 3 && !self.cur_case.is_empty() {
+        // samples: cases number 0, 10, 100, 1000, 10000 (written out in the evidence)
+        if !self.cur_case.is_empty() && matches!(self.cases, 1 | 11 | 101 | 1001 | 10001) {
             self.samples.push(self.cur_case.join(" / "));
         }
         self.cur_case.clear();
@@ -151,7 +152,7 @@ impl Ctx {
     }
 
     pub fn finish(mut self) {
-        if self.samples.len() < 3 && !self.cur_case.is_empty() {
+        if self.samples.is_empty() && !self.cur_case.is_empty() {
             self.samples.push(self.cur_case.join(" / "));
         }
         self.ops.flush().unwrap();
